@@ -379,6 +379,16 @@ func (s *genState) pairs(file string) []string {
 		if strings.ContainsAny(nw, " \t") || nw == "" {
 			nw = "z"
 		}
+		if nw == `""` {
+			// deleting the whole text of an entry has no "typed in place" counterpart: keep one character
+			for _, dir := range []string{"include/", "exclude/"} {
+				for _, l := range s.g.Prog.Files[dir+file+".ra"] {
+					if l.K == KEntry && l.T == old {
+						nw = "z"
+					}
+				}
+			}
+		}
 		ps = append(ps, old, nw)
 	}
 	s.label("suffix-pairs")
